@@ -58,6 +58,13 @@ def gen_cases(rng, tier):
                       'late': rng.pick(['int', 'date', 'list', 'decimal', 'str']),
                       'steps': [{'t': rng.pick(['add_field', 'filter', 'sort', 'update_resource', 'row_fn']), 'a': rng.randint(0, 3)}
                                 for _ in range(rng.randint(0, 2))]})
+    # values of Python types the in-line source link does not know: typed 'any', the rows go through as they are (round 9)
+    for what in ('fraction', 'timedelta', 'bytes', 'frozenset', 'none'):
+        for n_ in (5, 130):
+            cases.append({'kind': 'oddtypes', 'what': what, 'n': n_})
+    # a plain table named through env://: the resource is named after the file, as when it is loaded by its path
+    for var, fn in (('CITIES_CSV', 'cities.csv'), ('VERIF_C02_TABLE', 'my.table.csv'), ('data_file', 'Report 2020.csv')):
+        cases.append({'kind': 'envload', 'var': var, 'file': fn})
     return cases
 
 
@@ -274,7 +281,48 @@ def links_of(case):
     return list(src) if isinstance(src, Many) else [src]
 
 
+import fractions
+
+
+def odd_value(kind, j):
+    return {'fraction': fractions.Fraction(j + 1, 3), 'bytes': b'b%d' % j, 'timedelta': datetime.timedelta(minutes=j + 1),
+            'frozenset': frozenset([j]), 'tuple': (j, j + 1), 'none': None}[kind]
+
+
+def run_special(case):
+    """sources the ordinary pipelines do not have: a bare iterable whose column holds values of a Python type the source
+    link does not know (they are typed 'any' and go through untouched), and a plain table loaded through env://"""
+    try:
+        if case['kind'] == 'oddtypes':
+            rows = [{'id': j, 'x': odd_value(case['what'], j) if j % 4 else None} for j in range(case['n'])]
+            with quiet():
+                got, dp, _ = Flow([dict(r) for r in rows]).results()
+            f = dict((x['name'], x['type']) for x in dp.descriptor['resources'][0]['schema']['fields'])
+            return {'types': f, 'same': got[0] == rows, 'nrows': len(got[0])}
+        d = os.path.join(scratch(), 'env_%s' % digest(case))
+        os.makedirs(d, exist_ok=True)
+        path = os.path.join(d, case['file'])
+        open(path, 'w').write('id,city\n1,london\n2,paris\n')
+        os.environ[case['var']] = path
+        try:
+            with quiet():
+                got, dp, _ = Flow(DF.load('env://' + case['var'])).results()
+                ref, rdp, _ = Flow(DF.load(path)).results()
+        finally:
+            del os.environ[case['var']]
+            shutil.rmtree(d, ignore_errors=True)
+        r, rr = dp.descriptor['resources'][0], rdp.descriptor['resources'][0]
+        return {'name': r['name'], 'path': r['path'], 'ref_name': rr['name'], 'ref_path': rr['path'], 'valid': bool(dp.valid), 'ref_valid': bool(rdp.valid), 'rows': got[0] == ref[0] and len(got[0]) == 2}
+    except Exception as e:
+        c = e
+        while type(c).__name__ == 'ProcessorError' and getattr(c, 'cause', None) is not None:
+            c = c.cause
+        return {'error': '%s: %s' % (type(c).__name__, str(c)[:200])}
+
+
 def run_impl(case):
+    if case.get('kind') in ('oddtypes', 'envload'):
+        return run_special(case)
     srcs = [base_rows(i, n) for i, n in enumerate(case['sizes'])]
     out = {}
     case = dict(case)
@@ -345,6 +393,20 @@ def run_impl(case):
 
 
 def oracle(case, out):
+    if case.get('kind') == 'oddtypes':
+        what = 'a bare iterable of %d rows whose column x holds %s values' % (case['n'], case['what'])
+        if 'error' in out:
+            return '%s: the flow failed: %s' % (what, out['error'])
+        if out['types'] != {'id': 'integer', 'x': 'any'} or not out['same']:
+            return '%s is described as %r and its rows %s' % (what, out['types'], 'come out as they went in' if out['same'] else 'come out changed')
+        return None
+    if case.get('kind') == 'envload':
+        if 'error' in out:
+            return 'load(env://%s) failed: %s' % (case['var'], out['error'])
+        if (out['name'], out['path']) != (out['ref_name'], out['ref_path']) or out['valid'] != out['ref_valid'] or not out['rows']:
+            return 'load(env://%s) of %s describes the resource as %r / %r (valid package: %s); loaded by its path it is %r / %r' % (
+                case['var'], case['file'], out['name'], out['path'], out['valid'], out['ref_name'], out['ref_path'])
+        return None
     if 'error' in out:
         if out.get('may_reject') and ('AssertionError' in out['error'] or 'consecutive' in out['error']):
             return None       # the documented refusal of a non-consecutive selection
@@ -361,7 +423,7 @@ def oracle(case, out):
 
 
 def coq_term(case, out):
-    if 'shape' not in out:
+    if 'shape' not in out or case.get('kind') in ('oddtypes', 'envload'):
         return None
     rs = []
     for s_ in out['shape']:
@@ -377,6 +439,8 @@ def nontrivial(case, out):
 
 
 def shrinks(case):
+    if case.get('kind') in ('oddtypes', 'envload'):
+        return
     for i in range(len(case['steps'])):
         if len(case['steps']) > 1:
             c = copy.deepcopy(case)
